@@ -57,10 +57,27 @@ def run_case(ctx, name, params):
     from artap.individual import Individual
     r = ctx.rng(name, params["seed"])
 
+    reuse = {}
+
     def ev(prob, x, as_np, fam):
         vec = [np.float64(v) for v in x] if as_np else list(x)
         try:
-            res = prob.evaluate(Individual(vec))
+            # half of the points are evaluated on an Individual object that was evaluated before with another vector
+            # (re-assigned or updated in place), as the swarm algorithms do with their particles
+            key = (fam, len(vec))
+            old = reuse.get(key)
+            if old is not None and r.random() < 0.5:
+                ind = old
+                if r.random() < 0.5:
+                    ind.vector = vec
+                else:
+                    for i_, v_ in enumerate(vec):
+                        ind.vector[i_] = v_
+                ctx.count("re_evaluations_of_a_moved_individual")
+            else:
+                ind = Individual(vec)
+                reuse[key] = ind
+            res = prob.evaluate(ind)
             out = [float(v) for v in res]
         except Exception as e:
             ctx.violation("%s/exception" % fam, "%s.evaluate raised %r on a box point" % (fam, e), {"x": x, "numpy": as_np})
@@ -156,3 +173,4 @@ def requirements(ctx):
     ctx.require("dtlz234_norm_checks", 600)
     ctx.require("zdt1_checks", 100)
     ctx.require("biobjective_checks", 100)
+    ctx.require("re_evaluations_of_a_moved_individual", 500)
